@@ -201,13 +201,13 @@ class TranslatorSMT2(Translator):
                 elif expr.op == "*":
                     res = bvmul(res, arg)
                 elif expr.op == "/":
-                    res = bvsdiv(res, arg)
+                    res = bvudiv(res, arg)
                 elif expr.op == "sdiv":
                     res = bvsdiv(res, arg)
                 elif expr.op == "udiv":
                     res = bvudiv(res, arg)
                 elif expr.op == "%":
-                    res = bvsmod(res, arg)
+                    res = bvurem(res, arg)
                 elif expr.op == "smod":
                     res = bvsmod(res, arg)
                 elif expr.op == "umod":
